@@ -10,6 +10,8 @@
 Oracle: delivered value within [min, max] of the target, non-decreasing in the input for a
 normal window, non-increasing for a reversed one.
 """
+import itertools
+
 from checks import common as C
 from rvmc import snapshot as S, spec, treeenv
 
@@ -182,6 +184,91 @@ def macro_all():
             vs.append(C.viol("macro-wrong-error", {"what": label, "exc": type(e).__name__}, {"error": repr(e)[:200]}, {"macro16": True}))
     _ = before
     return n, vs
+
+
+def dependent_targets():
+    """Unit-dependent ranged targets (the declared range is the one of the unit currently selected): with the macro's
+    window and with the full window, normal and reversed, the target either stays untouched or holds a value of the
+    range declared for its unit -- for every unit."""
+    import rv.api as rv
+
+    vs, n = [], 0
+    lattice = sorted(set(list(range(0, 32769, 64)) + [1, 2, 255, 256, 257, 32767, 32768]))
+    for tkey, t in spec.types().items():
+        by_name = {x.name: x for x in t.controllers}
+        for c in t.controllers:
+            if c.kind != "dependent":
+                continue
+            u = by_name[c.depends_on]
+            for unit, (lo, hi) in c.ranges.items():
+                for window in ("macro", (0, 32768), (32768, 0)):
+                    p = rv.Project()
+                    tgt = p.new_module(getattr(rv.m, tkey))
+                    setattr(tgt, u.attr, u.members[unit])
+                    key = {"target": f"{tkey}.{c.name}", "unit": unit, "window": window if window == "macro" else list(window)}
+                    case = {"dependent": [tkey, c.name, unit, key["window"]]}
+                    try:
+                        mc = rv.m.MultiCtl.macro(p, (tgt, c.attr))
+                    except Exception as e:
+                        vs.append(C.viol("macro-raises", {"exc": type(e).__name__, "kind": "dependent"}, {"target": [tkey, c.name]}, case))
+                        continue
+                    if window != "macro":
+                        mc.mappings.values[0].min, mc.mappings.values[0].max = window
+                    for v in lattice:
+                        n += 1
+                        try:
+                            mc.value = v
+                        except Exception as e:
+                            vs.append(C.viol("delivery-raises", dict(key, exc=type(e).__name__), {"input": v}, case))
+                            break
+                        got = getattr(tgt, c.attr)
+                        if not (lo <= got <= hi):
+                            vs.append(C.viol("out-of-range", key, {"input": v, "delivered": got, "range": [lo, hi]}, case))
+                            break
+    return n, vs[:8]
+
+
+def macro_orders():
+    """macro() with several targets given in EVERY order of module numbers, each pair naming a different controller and
+    one pair's window reversed afterwards: link i and mapping i must describe the same pair -- each target's mapped
+    controller (and no other controller of it) follows the input, in the direction of ITS window."""
+    import rv.api as rv
+
+    vs, n = [], 0
+    attrs = ("volume", "balance", "dc_offset")
+    for order in itertools.permutations(range(3)):
+        for rev in range(3):
+            n += 1
+            p = rv.Project()
+            mods = [p.new_module(rv.m.Amplifier) for _ in range(3)]
+            pairs = [(mods[i], attrs[i]) for i in order]
+            case = {"macro_order": [list(order), rev]}
+            key = {"order": "".join(map(str, order)), "reversed_pair": rev}
+            try:
+                mc = rv.m.MultiCtl.macro(p, *pairs)
+            except Exception as e:
+                vs.append(C.viol("macro-raises", {"exc": type(e).__name__, "kind": "several-targets"}, {"error": repr(e)[:200]}, case))
+                continue
+            mp = mc.mappings.values[rev]
+            mp.min, mp.max = mp.max, mp.min
+            defaults = {a: getattr(rv.m.Amplifier(), a) for a in rv.m.Amplifier.controllers}
+            seen = {}
+            for v in (0, 8192, 16384, 24576, 32768):
+                mc.value = v
+                for j, (mod, attr) in enumerate(pairs):
+                    seen.setdefault(j, []).append(getattr(mod, attr))
+                    others = {a: getattr(mod, a) for a in defaults if a != attr}
+                    if others != {a: d for a, d in defaults.items() if a != attr}:
+                        vs.append(C.viol("macro-drives-wrong-controller", key,
+                                         {"pair": j, "module": mod.index, "mapped": attr,
+                                          "changed": sorted(a for a in others if others[a] != defaults[a])}, case))
+                        break
+            for j, vals in seen.items():
+                up = all(a <= b for a, b in zip(vals, vals[1:])) and vals[0] < vals[-1]
+                down = all(a >= b for a, b in zip(vals, vals[1:])) and vals[0] > vals[-1]
+                if (j == rev and not down) or (j != rev and not up):
+                    vs.append(C.viol("macro-pair-follows-another-pairs-window", key, {"pair": j, "values": vals}, case))
+    return n, vs[:8]
 
 
 def unset_mapping():
@@ -365,6 +452,10 @@ def run_case(case):
         return macro_all()[1]
     if "unset" in case:
         return unset_mapping()[1]
+    if "dependent" in case:
+        return [v for v in dependent_targets()[1] if v["case"] == case]
+    if "macro_order" in case:
+        return [v for v in macro_orders()[1] if v["case"] == case]
     tkey, cattr, cnum, lo, hi = case["target"]
     g, q, w, cn = case["params"]
     return sweep(tkey, cattr, cnum, lo, hi, (g, q, tuple(w), cn), range(32769))[1]
@@ -379,6 +470,12 @@ def _task(t):
         C.count(r, "macro_calls", n)
     elif t[0] == "unset":
         n, vs = unset_mapping()
+    elif t[0] == "dependent":
+        n, vs = dependent_targets()
+        C.count(r, "dependent", n)
+    elif t[0] == "orders":
+        n, vs = macro_orders()
+        C.count(r, "orders", n)
     else:
         _k, (lo, hi, kind), (tkey, cattr, cnum), params = t
         n, vs = sweep(tkey, cattr, cnum, lo, hi, params, range(32769))
@@ -401,7 +498,7 @@ def run(ctx):
         pick |= {keys[(ctx.seed * 7 + 3) % len(keys)], keys[(ctx.seed * 11 + 5) % len(keys)]}
         keys = sorted(pick, key=lambda k: (k[1] - k[0], k[0], k[2]))
     g = grid(ctx.thorough)
-    tasks = [("macro",), ("unset",)]
+    tasks = [("macro",), ("unset",), ("dependent",), ("orders",)]
     hdepth = 5 if ctx.thorough else 4
     for variant in ("macro", "plain"):
         for lo in range(len(h_ops())):
@@ -424,6 +521,8 @@ def run(ctx):
         "value_axis": "all 32769 inputs", "target_spans": len(keys), "all_distinct_spans": len(reps),
         "parameter_tuples": len(g), "sweeps": agg.counters.get("sweeps", 0),
         "macro_calls": agg.counters.get("macro_calls", 0),
+        "unit_dependent_target_deliveries": agg.counters.get("dependent", 0),
+        "macro_argument_orders": agg.counters.get("orders", 0),
         "operation_histories": agg.counters.get("histories", 0), "history_depth": hdepth, "history_ops": len(h_ops()),
         "samples": agg.samples,
     }
